@@ -178,6 +178,13 @@ def c06_3(ctx):
             kw_lit = n
     ctx.check(kw_lit is not None, 'set:keyword-rejected', sl.site(kw_lit) if kw_lit else sl.site(), 'a label that is an assembler keyword is rejected',
               'no aborting keyword check')
+    # the keyword set contains the words as the assembler itself spells them (directive names in lower case, functions in upper case)
+    kws = ctx.fold.module_const('bespokeasm.assembler.keywords', 'ASSEMBLER_KEYWORD_SET')
+    need = {'LSB'} | {f'BYTE{i}' for i in range(10)} | {'org', 'memzone', 'align', 'fill', 'zero', 'zerountil', 'byte', '2byte', '4byte', '8byte', 'cstr', 'asciiz',
+                                                          'include', 'require', 'create_memzone', 'define', 'if', 'elif', 'else', 'endif', 'ifdef', 'ifndef', 'mute', 'unmute', 'emit'}
+    ctx.check(isinstance(kws, (set, frozenset)) and need <= set(kws), 'set:keyword-set-contents', 'src/bespokeasm/assembler/keywords.py:1',
+              'the keyword set holds every directive name and every expression function as spelled by the lexer (LSB, BYTE0..BYTE9)',
+              f'missing: {sorted(need - set(kws)) if isinstance(kws, (set, frozenset)) else kws}')
     if kw_lit is not None:
         base = deref(ctx, sl, kw_lit.test.left, kw_lit) if isinstance(kw_lit.test, ast.Compare) else None
         ok = isinstance(base, ast.Subscript) and unparse(base.value) == lab and isinstance(base.slice, ast.Slice) \
